@@ -701,14 +701,34 @@ class FuncORD:
         any(f.lineno > end for f in self.for_targets.get(name, []))
 
   def _reads_after(self, loop):
-    end = getattr(loop, 'end_lineno', loop.lineno)
+    """Names whose value at the end of the loop may still be read afterwards: names that are upward-exposed (read before being
+    definitely re-assigned) in the code that follows the loop.  A later loop that assigns the same name at the top of every
+    iteration before reading it - a per-iteration temporary that happens to be called the same - does not read it."""
     names = set()
     outer = [a for a in U.ancestors(self.fn, loop) if isinstance(a, (ast.For, ast.While))]
-    for st in self.body_stmts:
-      if st.lineno > end or (outer and any(st is not loop and _contains(o, st) and not _contains(loop, st) for o in outer)):
-        for node in _own_exprs(st):
-          names |= _loads(node)
-    return names
+    if outer:
+      # inside another loop the code before it runs again: keep the conservative answer
+      end = getattr(loop, 'end_lineno', loop.lineno)
+      for st in self.body_stmts:
+        if st.lineno > end or any(st is not loop and _contains(o, st) and not _contains(loop, st) for o in outer):
+          for node in _own_exprs(st):
+            names |= _loads(node)
+      return names
+    # the continuation of the loop: the statements after it in its block, then after its parent in the parent's block, ...
+    rest = []
+    child = loop
+    cur = U.parent(self.fn, loop)
+    while cur is not None:
+      for field in ('body', 'orelse', 'finalbody'):
+        blk = getattr(cur, field, None)
+        if isinstance(blk, list) and any(x is child for x in blk):
+          i = [k for k, x in enumerate(blk) if x is child][0]
+          rest.extend(blk[i + 1:])
+      if cur is self.fn:
+        break
+      child, cur = cur, U.parent(self.fn, cur)
+    ue, _d = _upward_exposed(rest, set())
+    return ue
 
   def _fresh_temps(self, body, own):
     """Names bound in the body to objects created in this iteration or to
